@@ -124,6 +124,22 @@ def container(F, R):
                 ok = pth is None and bool(eq_sw)
                 detail = 'from the CAS-Err arm the element is left only through the `counter == recorded` test%s' % ('' if pth is None else ' -- bypass %s' % pth)
         R.ob('LOOP', 'LOOP::%s::failed-validation-retries' % fnkey(upd), ok, detail, c.where, upd)
+    # the change counter observed first is recorded, and "nothing changed" is reported exactly when it equals the recorded one
+    recs = [s for s in upd.sites if s.i != "T" and s.node[0] == "a" and len(s.node[1]) > 1 and s.node[1][-1] == ".current_change_counter"]
+    ok = False
+    detail = 'no assignment to previous_state.current_change_counter'
+    for s in recs:
+        v = sym_nstr(sym(upd, s.node[2][1])) if s.node[2][0] == 'use' else sym_nstr(('?', s.node[2][0]))
+        detail = 'previous_state.current_change_counter = %s' % v[:120]
+        ok = 'Atomic::load(self.change_counter' in v and all(upd.dominates(f_, s) for f_ in sites_of(first))
+    R.ob('FLOW', 'FLOW::%s::observed-change-counter-recorded' % fnkey(upd), ok, detail + ' ; required the value loaded first (so the next refresh reports "nothing changed" once changes stop)', recs[0].where if recs else upd.file, upd)
+    falses = [s for s in upd.sites if s.i != 'T' and s.node[0] == 'a' and s.node[1] == [0] and s.node[2][0] == 'use' and s.node[2][1][0] == 'k' and s.node[2][1][3] == 0]
+    okf = False
+    conds = []
+    for s in falses:
+        conds = [sym_nstr(sym(upd, upd.blocks[b]['t'][1])) for (b, tgt) in lib.guard_switches(upd, s)]
+        okf = any('==' in c and 'current_change_counter' in c and 'Atomic::load(self.change_counter' in c for c in conds)
+    R.ob('ONLY-UNDER', 'ONLY-UNDER::%s::unchanged-iff-counter-equal' % fnkey(upd), okf and len(falses) == 1, '`false` (nothing changed) is returned under %s ; required recorded counter == loaded counter' % [c[:140] for c in conds], falses[0].where if falses else upd.file, upd)
     # ------------------------------------------------------------- parity test
     cd = F.fn(C + 'contains_data')
     t = sym_nstr(core.sym_place(cd, [0]))
